@@ -294,11 +294,22 @@ func runC11(r *mc.Run) {
 			}
 			// the two documents need not come from one signing certificate: after a renewal of Intel's TCB signing
 			// certificate one response still carries the old certificate, the other the new one (both under the root)
-			if cs := c.Choose("collateral-signers", 3); cs != 0 {
+			twoRoots := false
+			if cs := c.Choose("collateral-signers", 5); cs != 0 {
 				k2 := world.NewKey("c11-tcb-signer-2")
 				cert2 := world.MakeCert(world.CertSpec{CN: world.CNTcb, Key: k2, Serial: big.NewInt(0x5eed0002)}, w.PKI.Root, w.PKI.RootKey)
 				hdr2 := world.IssuerChainHeader(cert2, w.PKI.Root)
-				if cs == 1 {
+				if cs >= 3 {
+					// ... or even from under ANOTHER trusted root of the same name (two roots in the pool: an old and a new
+					// key); judged without revocation checking, where each document stands on its own chain
+					twoRoots = true
+					rk2 := world.NewKey("c11-second-root")
+					root2 := world.MakeCert(world.CertSpec{CN: world.CNRoot, IsCA: true, Key: rk2, MaxPathLen: 1}, nil, rk2)
+					cert2 = world.MakeCert(world.CertSpec{CN: world.CNTcb, Key: k2, Serial: big.NewInt(0x5eed0003)}, root2, rk2)
+					hdr2 = world.IssuerChainHeader(cert2, root2)
+					w.Roots = world.Pool(w.PKI.Root, root2)
+				}
+				if cs == 1 || cs == 3 {
 					w.QeBody = world.SignedBody("enclaveIdentity", w.QeRaw, k2)
 					w.QeHdr = map[string][]string{world.HdrQeIdentity: {hdr2}}
 				} else {
@@ -313,16 +324,21 @@ func runC11(r *mc.Run) {
 			case 2: // exactly at the earliest expiry (tcbInfo nextUpdate)
 				w.Now = world.TimeSetAt(world.T0.AddDate(0, 0, 20))
 			}
-			switch pool {
-			case 1:
-				w.Roots = world.Pool(U.Root, w.PKI.Root)
-			case 2:
-				w.Roots = world.Pool(w.PKI.Root, U.Root, world.CachedPKI("F").Root)
+			if !twoRoots {
+				switch pool {
+				case 1:
+					w.Roots = world.Pool(U.Root, w.PKI.Root)
+				case 2:
+					w.Roots = world.Pool(w.PKI.Root, U.Root, world.CachedPKI("F").Root)
+				}
 			}
 			level := []int{world.L0, world.L1, world.L2}[li]
 			id := "honest/" + c.ID() + world.LogTag()
 			if !r.Want(id) {
 				return
+			}
+			if twoRoots && level == world.L2 {
+				return // which root's CRL covers which signing certificate is not settled for two-root worlds
 			}
 			// driver self-check: the reference agrees that this world is honest
 			raw := w.Raw()
